@@ -253,7 +253,7 @@ def check(run: Run) -> None:
     for depth in (0, 1, 127, 128, 129):
         for prog in (b"\x51", b"\x61" * 519 + b"\x51", b"\x61" * 520 + b"\x51", b"\x61" * 2000 + b"\x51", b"\x4d\x08\x02" + bytes(520) + b"\x75\x51"):
             spends.append(c08.tapscript_spend(r8, prog, [], ["P2SH", "TAPROOT", "WITNESS"], (2, 0, 0xFFFFFFFF), path_len=depth))
-    # the recorded finding, always in the corpus (C08's 0xff corner seen from this side), so that its KNOWN-FINDING line does not depend on the seed
+    # the byte 0xff in a branch nothing takes (once a finding, repaired by 773acd7b) is always in the corpus, whatever the seed
     listed = c08.tapscript_spend(r8, b"\x00\x63\xff\x68\x51", [], ["P2SH", "TAPROOT", "WITNESS"], (2, 0, 0xFFFFFFFF), path_len=1)
     listed["why"] = "honest"
     spends.append(listed)
@@ -264,7 +264,7 @@ def check(run: Run) -> None:
     for k in bad8:
         e = spends[k]
         d = diag8.get(k) or {}
-        # (the corner of the tapscript the spend sits on is part of the key: the engine route shares C08's corpus, and with it the recorded 0xff finding)
+        # (the corner of the tapscript the spend sits on is part of the key: the engine route shares C08's corpus, and with it the 0xff corner)
         corner = c08.tapscript_class(e)
         run.violation(f"taproot|engine|{e.get('why', '')}|{d.get('verdict', '?') if isinstance(d, dict) else '?'}|code={'accepts' if e['ok'] else 'refuses'}" + (f"|{corner}" if corner else ""),
                       f"verify_input on a taproot script-path spend ({e.get('why')}): btclib {'accepts' if e['ok'] else 'refuses'}, BIP341 gives {d}", {"event": e, "spec": d})
